@@ -57,6 +57,7 @@ type T struct {
 	Name string
 	Hi   uint8
 	Lo   uint8
+	H    uint64 // structural hash
 	lo   uint64 // unsigned interval (valid if rng)
 	hi   uint64
 	rng  bool
@@ -70,9 +71,54 @@ func Mask(w uint8) uint64 {
 }
 
 var (
-	True  = &T{Op: OConst, W: 0, C: 1}
-	False = &T{Op: OConst, W: 0, C: 0}
+	True  = (&T{Op: OConst, W: 0, C: 1}).fin()
+	False = (&T{Op: OConst, W: 0, C: 0}).fin()
 )
+
+func mix(h, v uint64) uint64 {
+	h ^= v + 0x9e3779b97f4a7c15 + (h << 6) + (h >> 2)
+	h *= 0xff51afd7ed558ccd
+	return h ^ (h >> 29)
+}
+
+// fin computes the structural hash.
+func (t *T) fin() *T {
+	h := mix(uint64(t.Op)<<8|uint64(t.W), t.C)
+	h = mix(h, uint64(t.Hi)<<8|uint64(t.Lo))
+	for i := 0; i < len(t.Name); i++ {
+		h = mix(h, uint64(t.Name[i]))
+	}
+	for _, a := range t.A {
+		h = mix(h, a.H)
+	}
+	t.H = h
+	return t
+}
+
+// Equal is structural equality.
+func Equal(a, b *T) bool {
+	n := 0
+	return deepEq(a, b, &n)
+}
+
+func deepEq(a, b *T, n *int) bool {
+	if a == b {
+		return true
+	}
+	if a.H != b.H || a.Op != b.Op || a.W != b.W || a.C != b.C || a.Hi != b.Hi || a.Lo != b.Lo || a.Name != b.Name || len(a.A) != len(b.A) {
+		return false
+	}
+	*n++
+	if *n > 20000 {
+		return false
+	}
+	for i := range a.A {
+		if !deepEq(a.A[i], b.A[i], n) {
+			return false
+		}
+	}
+	return true
+}
 
 func Bool(b bool) *T {
 	if b {
@@ -97,15 +143,15 @@ func Const(w uint8, v uint64) *T {
 	if v < 300 {
 		p := smallConsts[w][v]
 		if p == nil {
-			p = &T{Op: OConst, W: w, C: v}
+			p = (&T{Op: OConst, W: w, C: v}).fin()
 			smallConsts[w][v] = p
 		}
 		return p
 	}
-	return &T{Op: OConst, W: w, C: v}
+	return (&T{Op: OConst, W: w, C: v}).fin()
 }
 
-func Sym(name string, w uint8) *T { return &T{Op: OSym, W: w, Name: name} }
+func Sym(name string, w uint8) *T { return (&T{Op: OSym, W: w, Name: name}).fin() }
 
 func (t *T) IsConst() bool { return t.Op == OConst }
 func (t *T) IsTrue() bool  { return t.Op == OConst && t.W == 0 && t.C == 1 }
@@ -146,19 +192,63 @@ func (t *T) setRange(lo, hi uint64) *T {
 	return t
 }
 
-func mk(op Op, w uint8, a ...*T) *T { return &T{Op: op, W: w, A: a} }
+// SetRange records a known unsigned interval for t (must be justified by an
+// assumption on the path: the caller adds the corresponding constraint).
+func (t *T) SetRange(lo, hi uint64) {
+	if t.Op == OConst {
+		return
+	}
+	l0, h0 := t.Range()
+	if lo < l0 {
+		lo = l0
+	}
+	if hi > h0 {
+		hi = h0
+	}
+	t.setRange(lo, hi)
+}
+
+// Refine narrows the interval of t (and of the symbol it is built from where
+// the relation is invertible). The caller guarantees lo <= t <= hi on the path.
+func Refine(t *T, lo, hi uint64) {
+	if lo > hi {
+		return
+	}
+	switch t.Op {
+	case OConst:
+		return
+	case OZExt:
+		m := Mask(t.A[0].W)
+		h := hi
+		if h > m {
+			h = m
+		}
+		Refine(t.A[0], lo, h)
+	case OAdd:
+		if t.rng && t.A[1].IsConst() {
+			c := t.A[1].C
+			if hi >= c {
+				l := uint64(0)
+				if lo > c {
+					l = lo - c
+				}
+				Refine(t.A[0], l, hi-c)
+			}
+		}
+	}
+	t.SetRange(lo, hi)
+}
+
+func mk(op Op, w uint8, a ...*T) *T { return (&T{Op: op, W: w, A: a}).fin() }
 
 func same(a, b *T) bool {
 	if a == b {
 		return true
 	}
-	if a.Op == OConst && b.Op == OConst {
-		return a.W == b.W && a.C == b.C
+	if a.H != b.H {
+		return false
 	}
-	if a.Op == OSym && b.Op == OSym {
-		return a.Name == b.Name && a.W == b.W
-	}
-	return false
+	return Equal(a, b)
 }
 
 func chk(a, b *T) {
@@ -397,12 +487,68 @@ func Or(a, b *T) *T {
 	if same(a, b) {
 		return a
 	}
+	if m := mergePieces(a, b); m != nil {
+		return m
+	}
 	r := mk(OOr, a.W, a, b)
 	_, ah := a.Range()
 	_, bh := b.Range()
 	n := bits.Len64(ah | bh)
 	if n < 64 {
 		r.setRange(0, (uint64(1)<<uint(n))-1)
+	}
+	return r
+}
+
+// piece decomposes t as zext(extract(x,hi,lo)) << sh.
+func piece(t *T) (x *T, hi, lo, sh uint8, ok bool) {
+	if t.Op == OShl && t.A[1].IsConst() && t.A[1].C < 64 {
+		x, hi, lo, sh, ok = piece(t.A[0])
+		if !ok || uint64(sh)+t.A[1].C >= uint64(t.W) {
+			return nil, 0, 0, 0, false
+		}
+		return x, hi, lo, sh + uint8(t.A[1].C), true
+	}
+	in := t
+	if t.Op == OZExt {
+		in = t.A[0]
+	}
+	if in.Op == OExtract {
+		return in.A[0], in.Hi, in.Lo, 0, true
+	}
+	if in.Op == OConst || in.W > 64 {
+		return nil, 0, 0, 0, false
+	}
+	if in != t { // zext of a whole narrower value
+		return in, in.W - 1, 0, 0, true
+	}
+	return nil, 0, 0, 0, false
+}
+
+// mergePieces recognises (hi-part << k) | lo-part of the same base value.
+func mergePieces(a, b *T) *T {
+	xa, ha, la, sa, ok := piece(a)
+	if !ok {
+		return nil
+	}
+	xb, hb, lb, sb, ok := piece(b)
+	if !ok || !same(xa, xb) {
+		return nil
+	}
+	if sa < sb {
+		ha, la, sa, hb, lb, sb = hb, lb, sb, ha, la, sa
+	}
+	// a is the high part
+	if la != hb+1 || sa-sb != hb-lb+1 {
+		return nil
+	}
+	w := a.W
+	if uint16(ha-lb+1)+uint16(sb) > uint16(w) {
+		return nil
+	}
+	r := ZExt(Extract(xa, ha, lb), w)
+	if sb > 0 {
+		r = Shl(r, Const(w, uint64(sb)))
 	}
 	return r
 }
@@ -619,6 +765,11 @@ func Eq(a, b *T) *T {
 			return Eq(a.A[0], b.A[0])
 		}
 	}
+	if a.W != 0 {
+		if r, ok := linEq(a, b); ok {
+			return Bool(r)
+		}
+	}
 	return mk(OEq, 0, a, b)
 }
 
@@ -648,6 +799,9 @@ func Ult(a, b *T) *T {
 	}
 	if b.Op == OZExt && a.IsConst() && a.C <= Mask(b.A[0].W) {
 		return Ult(Const(b.A[0].W, a.C), b.A[0])
+	}
+	if r, ok := linUlt(a, b); ok {
+		return Bool(r)
 	}
 	return mk(OUlt, 0, a, b)
 }
@@ -749,7 +903,17 @@ func Extract(a *T, hi, lo uint8) *T {
 	if a.Op == OExtract {
 		return Extract(a.A[0], a.Lo+hi, a.Lo+lo)
 	}
-	r := &T{Op: OExtract, W: w, A: []*T{a}, Hi: hi, Lo: lo}
+	if a.Op == OLShr && a.A[1].IsConst() && uint64(hi)+a.A[1].C < uint64(a.W) {
+		sh := uint8(a.A[1].C)
+		return Extract(a.A[0], hi+sh, lo+sh)
+	}
+	if a.Op == OZExt && hi < a.A[0].W {
+		return Extract(a.A[0], hi, lo)
+	}
+	if a.Op == OZExt && lo >= a.A[0].W {
+		return Const(w, 0)
+	}
+	r := (&T{Op: OExtract, W: w, A: []*T{a}, Hi: hi, Lo: lo}).fin()
 	if lo == 0 {
 		al, ah := a.Range()
 		if ah <= Mask(w) {
@@ -771,6 +935,20 @@ func ZExt(a *T, w uint8) *T {
 	}
 	if a.Op == OZExt {
 		return ZExt(a.A[0], w)
+	}
+	if a.Op == OExtract && a.Lo == 0 {
+		x := a.A[0]
+		if _, xh := x.Range(); xh <= Mask(a.W) {
+			// the truncation did not lose bits
+			switch {
+			case x.W == w:
+				return x
+			case x.W < w:
+				return ZExt(x, w)
+			default:
+				return Extract(x, w-1, 0)
+			}
+		}
 	}
 	r := mk(OZExt, w, a)
 	lo, hi := a.Range()
@@ -796,7 +974,7 @@ func SExt(a *T, w uint8) *T {
 
 // UF applies an uninterpreted function.
 func UF(name string, w uint8, args ...*T) *T {
-	return &T{Op: OUF, W: w, Name: name, A: args}
+	return (&T{Op: OUF, W: w, Name: name, A: args}).fin()
 }
 
 // Conj builds a conjunction.
